@@ -257,12 +257,25 @@ RecordMatches(h, tbl) ==
       histCounts(c) == Cardinality({ids[i] : i \in {x \in 1..n : Cardinality({j \in 1..n : ids[j] = ids[x]}) = c}})
   IN \A c \in counts \cup {tbl[j][2] : j \in 1..Len(tbl)} : c = 0 \/ recCounts(c) = histCounts(c)
 
+\* at a further go without a new position command the record must still hold the described game (an engine may have added
+\* its own replies, it may not have lost the game): for every t at least as many record entries with count >= t as
+\* positions of the game that occurred >= t times
+RecordCovers(h, tbl) ==
+  LET n == Len(h)
+      ids == [i \in 1..n |-> Identity(h[i])]
+      occ(i) == Cardinality({j \in 1..n : ids[j] = ids[i]})
+      maxc == IF n = 0 THEN 0 ELSE CHOOSE c \in {occ(i) : i \in 1..n} : \A i \in 1..n : occ(i) <= c
+  IN \A t \in 1..maxc : Cardinality({j \in 1..Len(tbl) : tbl[j][2] >= t}) >= Cardinality({ids[i] : i \in {x \in 1..n : occ(x) >= t}})
+
 HkFails(e) ==
   CASE e.h = "go_start" ->
-         \* (C10 speaks about the record after a position command: judged at the first go behind it; whether the engine's
-         \* own replies enter the record before a further go is not the property's business)
-         (IF s.skip \/ ~Has(e, "table") \/ s.gos # 1 THEN {}
-          ELSE IF ~RecordMatches(s.base, e.table) THEN {<<"C10", "record-at-go", D(<<s.cmd, [j \in 1..Len(e.table) |-> e.table[j][2]]>>)>>} ELSE {})
+         \* (C10 speaks about the record after a position command: exact at the first go behind it; at a further go the
+         \* described game must still be in it - whether the engine's own replies have entered it as well is not the
+         \* property's business)
+         (IF s.skip \/ ~Has(e, "table") THEN {}
+          ELSE IF s.gos = 1
+               THEN (IF ~RecordMatches(s.base, e.table) THEN {<<"C10", "record-at-go", D(<<s.cmd, [j \in 1..Len(e.table) |-> e.table[j][2]]>>)>>} ELSE {})
+               ELSE (IF ~RecordCovers(s.base, e.table) THEN {<<"C10", "record-lost-before-a-further-go", D(<<s.cmd, [j \in 1..Len(e.table) |-> e.table[j][2]]>>)>>} ELSE {}))
          \* C09 inside the real command loop: the slice planned for THIS go (logged at GoAccept, placed right behind its go
          \* line) obeys the contract for the tokens of this go line alone and for the side to move of the board that is
          \* searched - whatever earlier go commands carried
